@@ -412,6 +412,143 @@ func c06(args []string) int {
 	}
 	osh.Close()
 
+	// ---------------- part 2c: weights that CHANGE under a running scheduler ----------------
+	// NextAndPush asks the weight function at every pick; a host's weight may go A -> B -> A (drained and restored).
+	// Every pick is recorded with the weight reported at that pick and replayed in Model/EdfVar.v (time scaled by
+	// D = lcm of the pool, so pools are chosen with a small lcm: non-tied exact deadlines then differ by >= 1/D,
+	// far above float64 rounding). Finder: once the weights stand still and every host has been re-queued, the
+	// window bound of the property holds with the final weights.
+	vhdr := "From MV Require Import Model.Edf Model.EdfVar.\nFrom Coq Require Import List ZArith.\nImport ListNotations.\nOpen Scope Z_scope.\n"
+	vsh := run.NewShard(vhdr, "edfw_case", "edfw_mismatches")
+	pools := [][]uint32{{1, 2, 4, 8, 16, 32, 64, 128}, {1, 2, 3, 4, 6, 12}, {1, 2, 3, 4, 5, 6, 10, 12, 15, 20, 30, 60},
+		{1, 2, 4, 5, 8, 10, 20, 25, 40, 50, 100}, {1, 3, 9, 27, 81}, {7, 14, 28, 56, 112}, {1, 2, 3, 6, 9, 18, 27, 54, 108}, {1, 127}, {128, 1}, {1, 11, 121}}
+	nvar := run.N(40, 500)
+	for ci := 0; ci < nvar; ci++ {
+		var pool []uint32
+		if ci < len(pools) || r.Pct(50) {
+			pool = pools[ci%len(pools)]
+		} else { // random pool with lcm <= 2^21
+			pool = []uint32{1}
+			l := uint64(1)
+			for len(pool) < 4 {
+				w := uint32(1 + r.Intn(128))
+				if nl := lcm64(l, uint64(w)); nl <= 1<<21 {
+					l = nl
+					pool = append(pool, w)
+				} else if r.Pct(30) {
+					break
+				}
+			}
+		}
+		D := uint64(1)
+		for _, w := range pool {
+			D = lcm64(D, uint64(w))
+		}
+		n := 2 + r.Intn(4)
+		cand := make([][]uint32, n) // the weights each host alternates between
+		for i := range cand {
+			k := 2 + r.Intn(2)
+			for j := 0; j < k; j++ {
+				cand[i] = append(cand[i], pool[r.Intn(len(pool))])
+			}
+		}
+		type seg struct {
+			picks  int
+			host   int
+			weight uint32
+		}
+		var script []seg
+		if ci == 0 { // the drained-and-restored shape: weights 4,2,1; host 0 goes 4 -> 1 -> 4
+			D, n = 4, 3
+			cand = [][]uint32{{4, 1}, {2}, {1}}
+			script = []seg{{14, 0, 1}, {12, 0, 4}}
+		} else {
+			for k := 0; k < 2+r.Intn(8); k++ {
+				h := r.Intn(n)
+				script = append(script, seg{1 + r.Intn(60), h, cand[h][r.Intn(len(cand[h]))]})
+			}
+			if r.Pct(60) { // make sure an A -> B -> A round trip of one host is in the history
+				h := r.Intn(n)
+				script = append(script, seg{1 + r.Intn(40), h, cand[h][1]}, seg{1 + r.Intn(40), h, cand[h][0]})
+			}
+		}
+		ed := cluster.VerifNewEdfW(n)
+		cur := make([]uint32, n)
+		var ops []string
+		var opsJ []interface{}
+		late := -1
+		if ci != 0 && n > 2 && r.Pct(30) {
+			late = n - 1 // the last host joins after the first segment
+		}
+		for i := 0; i < n; i++ {
+			cur[i] = cand[i][0]
+			if i == late {
+				continue
+			}
+			ed.Add(cur[i])
+			ops = append(ops, fmt.Sprintf("WAddW %d", cur[i]))
+			opsJ = append(opsJ, fmt.Sprintf("add w=%d", cur[i]))
+		}
+		bad := ""
+		pick := func() int {
+			id, w := ed.Next()
+			if id < 0 || id >= n || w != cur[id] {
+				if bad == "" {
+					bad = fmt.Sprintf("pick returned id %d weight %d (current weights %v)", id, w, cur)
+				}
+				return -1
+			}
+			ops = append(ops, fmt.Sprintf("WPickW %d%%nat %d", id, w))
+			opsJ = append(opsJ, []int{id, int(w)})
+			return id
+		}
+		for si, sg := range script {
+			for k := 0; k < sg.picks; k++ {
+				pick()
+			}
+			if si == 0 && late >= 0 {
+				ed.Add(cur[late])
+				ops = append(ops, fmt.Sprintf("WAddW %d", cur[late]))
+				opsJ = append(opsJ, fmt.Sprintf("add w=%d", cur[late]))
+			}
+			cur[sg.host] = sg.weight
+			ed.SetWeight(sg.host, sg.weight)
+			opsJ = append(opsJ, fmt.Sprintf("set host %d w=%d", sg.host, sg.weight))
+		}
+		// warm-up: until every host has been re-queued under the final weights (bounded), then the window
+		seen := map[int]bool{}
+		for k := 0; k < 4000 && len(seen) < n && bad == ""; k++ {
+			seen[pick()] = true
+		}
+		if len(seen) < n && bad == "" {
+			bad = fmt.Sprintf("a host was not picked once in 4000 picks (weights %v)", cur)
+		}
+		win := make([]int, 0, 400)
+		for k := 0; k < run.N(300, 1200) && bad == ""; k++ {
+			win = append(win, pick())
+		}
+		rep := map[string]interface{}{"part": "edf-weight-changes", "D": D, "final_weights": append([]uint32{}, cur...), "ops": opsJ}
+		run.Count(fmt.Sprintf("edfw|%v|%v|%d", cand, script, len(ops)), true, "edf-weight-changes")
+		if bad == "" {
+			if b := edfWindowViolation(cur, win); b != "" {
+				bad = "after the weights stood still and every host was re-queued once: " + b
+			}
+		}
+		if bad != "" {
+			run.Fail("edf:window-bound-after-weight-change", bad, rep)
+		}
+		small := map[string]interface{}{"part": "edf-weight-changes", "D": D, "candidate_weights": cand, "final_weights": append([]uint32{}, cur...), "nops": len(ops)}
+		vsh.Add(fmt.Sprintf("(%d, %s)", D, CoqList(ops)), small)
+		if len(run.Sum.Samples) < 8 && ci < 2 {
+			run.Sum.Samples = append(run.Sum.Samples, small)
+		}
+		if vsh.Len() >= 25 {
+			vsh.Close()
+			vsh = run.NewShard(vhdr, "edfw_case", "edfw_mismatches")
+		}
+	}
+	vsh.Close()
+
 	// ---------------- part 3: the weighted round robin BALANCER (EdfLoadBalancer.refresh + ChooseHost) ----------------
 	// all hosts healthy; the balancer is rebuilt several times so that different numbers of random pre-picks are seen
 	wsh := run.NewShard("From MV Require Import Model.Edf.\nFrom Coq Require Import List ZArith.\nImport ListNotations.\nOpen Scope Z_scope.\n",
@@ -493,8 +630,127 @@ func c06(args []string) int {
 		}
 	}
 	wsh.Close()
+
+	// ---------------- part 3b: the BALANCER with hosts whose weight changes (4 -> 1 -> 4 ...) ----------------
+	wwsh := run.NewShard("From MV Require Import Model.Edf Model.EdfVar.\nFrom Coq Require Import List ZArith.\nImport ListNotations.\nOpen Scope Z_scope.\n",
+		"wrrw_case", "wrrw_mismatches")
+	wpools := [][]uint32{{4, 2, 1}, {6, 3, 2}, {1, 2, 4, 8, 16, 32, 64, 128}, {1, 2, 3, 4, 6, 12}, {5, 10, 20, 40}, {1, 3, 9, 27}}
+	for ci := 0; ci < run.N(16, 160); ci++ {
+		pool := wpools[ci%len(wpools)]
+		D := uint64(1)
+		for _, w := range pool {
+			D = lcm64(D, uint64(w))
+		}
+		n := 2 + r.Intn(3)
+		cur := make([]uint32, n)
+		orig := make([]uint32, n)
+		var hosts []types.Host
+		idx := map[string]int{}
+		whs := make([]*c06WHost, n)
+		for i := 0; i < n; i++ {
+			cur[i] = pool[(i+ci/len(wpools))%len(pool)]
+			if i > 0 && ci >= len(wpools) {
+				cur[i] = pool[r.Intn(len(pool))]
+			}
+			orig[i] = cur[i]
+			addr := fmt.Sprintf("10.66.%d.%d:%d", ci%250, i, 2000+ci/250)
+			h := cluster.NewSimpleHost(v2.Host{HostConfig: v2.HostConfig{Address: addr, Weight: cur[i]}}, winfo)
+			h.ClearHealthFlag(api.FAILED_ACTIVE_HC)
+			h.ClearHealthFlag(api.FAILED_OUTLIER_CHECK)
+			whs[i] = &c06WHost{Host: h, w: cur[i]}
+			hosts = append(hosts, whs[i])
+			idx[addr] = i
+		}
+		alleq := true
+		for _, w := range cur {
+			if w != cur[0] {
+				alleq = false
+			}
+		}
+		if alleq { // equal weights at construction: no scheduler is built (plain round robin), nothing to observe here
+			cur[0] = pool[0]
+			if cur[0] == cur[1] {
+				cur[0] = pool[1]
+			}
+			orig[0] = cur[0]
+			whs[0].w = cur[0]
+		}
+		lb := cluster.NewLoadBalancer(winfo, cluster.NewHostSet(hosts))
+		var ops []string
+		var opsJ []interface{}
+		bad := ""
+		pick := func() int {
+			h := lb.ChooseHost(nil)
+			if h == nil {
+				if bad == "" {
+					bad = "ChooseHost returned nil with all hosts healthy"
+				}
+				return -1
+			}
+			i := idx[h.AddressString()]
+			ops = append(ops, fmt.Sprintf("WPickW %d%%nat %d", i, cur[i]))
+			opsJ = append(opsJ, []int{i, int(cur[i])})
+			return i
+		}
+		// host 0 leaves its weight and comes back to it; other hosts may change in between
+		for k := 0; k < 1+r.Intn(40); k++ {
+			pick()
+		}
+		for round := 0; round < 1+r.Intn(3); round++ {
+			other := pool[r.Intn(len(pool))]
+			for _, step := range []uint32{other, orig[0]} {
+				cur[0] = step
+				whs[0].w = step
+				opsJ = append(opsJ, fmt.Sprintf("set host 0 w=%d", step))
+				if r.Pct(30) {
+					j := 1 + r.Intn(n-1)
+					cur[j] = pool[r.Intn(len(pool))]
+					whs[j].w = cur[j]
+					opsJ = append(opsJ, fmt.Sprintf("set host %d w=%d", j, cur[j]))
+				}
+				for k := 0; k < 1+r.Intn(40); k++ {
+					pick()
+				}
+			}
+		}
+		seen := map[int]bool{}
+		for k := 0; k < 4000 && len(seen) < n && bad == ""; k++ {
+			seen[pick()] = true
+		}
+		var win []int
+		for k := 0; k < run.N(200, 800) && bad == ""; k++ {
+			win = append(win, pick())
+		}
+		rep := map[string]interface{}{"part": "wrr-balancer-weight-changes", "D": D, "initial_weights": orig, "final_weights": append([]uint32{}, cur...), "ops": opsJ}
+		run.Count(fmt.Sprintf("wrrw|%v|%v|%d", orig, cur, len(ops)), true, "wrr-weight-changes")
+		if bad == "" && len(seen) == n {
+			if b := edfWindowViolation(cur, win); b != "" {
+				bad = "after the weights stood still and every host was re-queued once: " + b
+			}
+		}
+		if bad != "" {
+			run.Fail("wrr:window-bound-after-weight-change", bad, rep)
+		}
+		var wsz []string
+		for _, w := range orig {
+			wsz = append(wsz, CoqZ(int64(w)))
+		}
+		if len(ops) > 260 {
+			ops = ops[:260]
+		}
+		wwsh.Add(fmt.Sprintf("(%d, %s, %s)", D, CoqList(wsz), CoqList(ops)), map[string]interface{}{"part": "wrr-balancer-weight-changes", "D": D, "initial_weights": orig, "final_weights": append([]uint32{}, cur...), "nops": len(ops)})
+	}
+	wwsh.Close()
 	return run.Finish()
 }
+
+// c06WHost is a host whose weight the harness changes while the balancer runs.
+type c06WHost struct {
+	types.Host
+	w uint32
+}
+
+func (h *c06WHost) Weight() uint32 { return h.w }
 
 // edfWindowViolation checks |n_i/w_i - n_j/w_j| <= 1/w_i + 1/w_j (multiplied by w_i*w_j) over every window.
 func edfWindowViolation(ws []uint32, picks []int) string {
@@ -532,6 +788,14 @@ func edfWindowViolation(ws []uint32, picks []int) string {
 		}
 	}
 	return ""
+}
+
+func lcm64(a, b uint64) uint64 {
+	x, y := a, b
+	for y != 0 {
+		x, y = y, x%y
+	}
+	return a / x * b
 }
 
 func minInt(a, b int) int {
